@@ -6,7 +6,7 @@ ids=${@:-$(ls seeded)}
 for id in $ids; do
   wt=/tmp/vfr.$id.$$
   git -C /repo worktree add -q --detach "$wt" HEAD || continue
-  if git -C "$wt" apply "seeded/$id/patch.diff"; then
+  if git -C "$wt" apply "/verif/seeded/$id/patch.diff"; then
     VERIF_REPO="$wt" ./check "$id" --tier quick >/tmp/vfr.$id.out 2>/dev/null </dev/null; rc=$?
     echo "SEED $id quick_exit=$rc $(grep -c VIOLATION /tmp/vfr.$id.out) violation lines"
   else
